@@ -733,6 +733,17 @@ func runC20Race(c *fw.Ctx, item *int64) {
 			}
 		}
 	}
+	// read-only requests against each other on the engine that does NOT happen to order them through locks of its own
+	// (leveldb takes internal mutexes when an iterator is created and released, which hides unsynchronised state the
+	// service shares between readers - a sampling generator, a cache)
+	if !c.Thorough() {
+		ro := []string{"ReadSmall", "ReadBig", "SampleRowKeys", "GetTable", "ListTables"}
+		for i := range ro {
+			for j := i; j < len(ro); j++ {
+				scen = append(scen, c20Param{Side: "bt", Store: "btree", Threads: []string{ro[i], ro[j]}})
+			}
+		}
+	}
 	// a long scan (four messages, i.e. three lock gaps, deep inside a multi-level tree) against everything that
 	// restructures or replaces the table's storage; every engine, the btree engine included (its scans need not
 	// be consistent under writes, but they must not crash the server)
